@@ -6,7 +6,10 @@ import itertools
 import json
 import vlib
 
-PROOFS = ["MgProof.C11.LemmasStore", "MgProof.C11.LemmasAL", "MgProof.C11.Props"]
+PROOFS = ["MgProof.C11.LemmasStore", "MgProof.C11.LemmasAL", "MgProof.C11.LemmasStack",
+          "MgProof.C11.LemmasLink", "MgProof.C11.LemmasDMem", "MgProof.C11.LemmasSurgery",
+          "MgProof.C11.LemmasLL", "MgProof.C11.LemmasLLOps", "MgProof.C11.LemmasQueue",
+          "MgProof.C11.LemmasPS", "MgProof.C11.LemmasPSOps", "MgProof.C11.Props"]
 GREP = ["MgModel/C11", "MgProof/C11", "MgModel/Common", "Drv/C11.lean"]
 REPO_SRCS = ["muggle/c/dsaa/array_list.c", "muggle/c/dsaa/linked_list.c", "muggle/c/dsaa/queue.c",
              "muggle/c/dsaa/stack.c", "muggle/c/memory/pointer_slot.c",
